@@ -210,6 +210,66 @@ def install(prog):
         write_to(ctx, a[0], ser_piece('json', a[1]))
         return ok(UNIT)
 
+    @B('serde_yaml::to_string')
+    def b_yaml_to_string(ctx, a, callee):
+        """serde_yaml's text for a *scalar* value (containers stay opaque serialiser pieces). Strings are written plain when the
+        emitter's scalar analysis allows it and quoted otherwise; the model decides per byte whether the text is "plain-safe" and
+        otherwise returns the single-quoted form. It is an approximation of a third-party emitter: every counterexample that runs
+        through it is replayed natively before it is reported."""
+        from .bi_str import sbytes, mkstr
+        v = D(a[0])
+        names = ['Null', 'Bool', 'Number', 'String', 'Sequence', 'Mapping', 'Tagged']
+        kind = names[v.variant]
+        if kind == 'Null':
+            return ok('null\n')
+        if kind == 'Bool':
+            bv = v.fields[0]
+            if is_sym(bv):
+                return ok('true\n' if ctx.branch(bv) else 'false\n')
+            return ok('true\n' if bv else 'false\n')
+        if kind == 'Number':
+            n = v.fields[0]
+            if is_sym(n.fields[1]):
+                return ok(FmtV((('int' if n.fields[0] != 'f64' else 'f64', n.fields[1], n.fields[0]), '\n')))
+            return ok(str(n.fields[1]) + '\n')
+        if kind != 'String':
+            return ok(ser_piece('yaml', v))
+        bs = list(sbytes(v.fields[0]))
+        special_first = b'-?:,[]{}#&*!|>\'"%@` ~0123456789.+<='
+        special_any = b':#\'"\\\t\n'
+
+        def member(x, pool):
+            if is_sym(x):
+                return ctx.branch(z3.Or(*[x == c for c in pool]))
+            return x in pool
+        plain = len(bs) > 0
+        if plain and member(bs[0], special_first):
+            plain = False
+        if plain and member(bs[-1], b' '):
+            plain = False
+        if plain:
+            for x in bs:
+                if member(x, special_any):
+                    plain = False
+                    break
+                if not is_sym(x) and (x < 0x20 or x > 0x7e):
+                    plain = False
+                    break
+        if plain and not any(is_sym(x) for x in bs):
+            t = bytes(bs).decode('latin-1').lower()
+            if t in ('true', 'false', 'null', 'yes', 'no', 'on', 'off', 'y', 'n', 'nan', 'inf'):
+                plain = False
+        elif plain and len(bs) == 1 and member(bs[0], b'ynYN'):
+            plain = False
+        if plain:
+            return ok(mkstr(tuple(bs) + (0x0a,)))
+        q = []
+        for x in bs:
+            q.append(x)
+            if member(x, b"'"):
+                q.append(0x27)
+        return ok(mkstr((0x27,) + tuple(q) + (0x27, 0x0a)))
+
     @B('serde_yaml::to_writer')
     def b_yaml_to_writer(ctx, a, callee):
         write_to(ctx, a[0], ser_piece('yaml', a[1]))
